@@ -28,30 +28,30 @@ REASONS = [
      "one id per element/comment: stated assumption < 2^32 elements per load", None),
     # ---------------------------------------------------------------- a2ml.rs scanner
     (r"a2ml::make_errtxt \| Overflow:Add \| arg1 Add 16 \(usize\) \| #0", "pos is a scan position <= input length <= isize::MAX at all three call sites", None),
-    (r"a2ml::make_errtxt \| Slice:seq \| arg2\[Range<usize>\] \| #0", "callers pass the start position of the current token, which is < datalen, and endpos = min(pos+16, datalen) >= pos", None),
-    (r"a2ml::tokenize_a2ml \| Slice:str \| arg2\[Range<usize>\] \| #0", "copypos is 0 or the position after an /include directive (ASCII quote/whitespace/end), startpos is the position of the ASCII '/' of the next /include and copypos <= startpos because the scan only moves forward", None),
-    (r"a2ml::tokenize_a2ml \| Slice:str \| arg2\[Range<usize>\] \| #1", "copypos <= bytepos <= datalen, both on ASCII boundaries (see #0)", None),
+    (r"a2ml::make_errtxt \| Slice:seq \| arg2\[arg1\.\.local:usize\] \| #0", "callers pass the start position of the current token, which is < datalen, and endpos = min(pos+16, datalen) >= pos", None),
+    (r"a2ml::tokenize_a2ml \| Slice:str \| arg2\[local:usize\.\.local:usize\] \| #0", "copypos is 0 or the position after an /include directive (ASCII quote/whitespace/end), startpos is the position of the ASCII '/' of the next /include and copypos <= startpos because the scan only moves forward", None),
+    (r"a2ml::tokenize_a2ml \| Slice:str \| arg2\[local:usize\.\.len\(arg2\)\] \| #0", "copypos <= bytepos <= datalen, both on ASCII boundaries (see #0)", None),
     (r"a2ml::tokenize_include \| Overflow:Add \| arg3 Add 8 \(usize\) \| #0", "called only when input[bytepos..] starts with \"/include\": bytepos + 8 <= datalen", None),
     (r"a2ml::tokenize_include \| Overflow:Add \| arg3 Add 1 \(usize\) \| #[01]", "the state machine returns Err as soon as it reads the virtual NUL at bytepos >= datalen in states 0,2,3 and breaks in state 1, so bytepos <= datalen + 1", None),
-    (r"a2ml::tokenize_include \| Slice:str \| arg2\[Range<usize>\] \| #0", "fname_idx_start is set at the first path character after ASCII whitespace/quote, fname_idx_end at the ASCII terminator (or datalen); start <= end because end is assigned later in the same forward scan", None),
-    (r"a2ml::tokenize_(keyword_ident|number) \| Slice:str \| arg1\[Range<usize>\] \| #0", "startpos is the position of an ASCII letter/digit, *bytepos stops at the first byte that is not ASCII alphanumeric/underscore (a char boundary) or at datalen", None),
-    (r"a2ml::tokenize_tag \| Slice:str \| arg1\[Range<usize>\] \| #0", "startpos is the opening ASCII quote, *bytepos the closing ASCII quote found by the forward scan: startpos + 1 <= *bytepos < datalen", None),
+    (r"a2ml::tokenize_include \| Slice:str \| arg2\[local:usize\.\.local:usize\] \| #0", "fname_idx_start is set at the first path character after ASCII whitespace/quote, fname_idx_end at the ASCII terminator (or datalen); start <= end because end is assigned later in the same forward scan", None),
+    (r"a2ml::tokenize_(keyword_ident|number) \| Slice:str \| arg1\[arg2\.\.arg2\] \| #0", "startpos is the position of an ASCII letter/digit, *bytepos stops at the first byte that is not ASCII alphanumeric/underscore (a char boundary) or at datalen", None),
+    (r"a2ml::tokenize_tag \| Slice:str \| arg1\[\(arg2 Add 1\)\.\.arg2\] \| #0", "startpos is the opening ASCII quote, *bytepos the closing ASCII quote found by the forward scan: startpos + 1 <= *bytepos < datalen", None),
     # ---------------------------------------------------------------- ifdata.rs
     (r"ifdata::parse_unknown_ifdata \| Unwrap \| unwrap\(parser::ParserState::peek_token\(\.\.\)\) \| #0", "guarded by the is_none() early return two lines above", None),
     (r"ifdata::parse_unknown_taggedstruct \| Unwrap \| unwrap\(std::collections::HashMap::get_mut\(\.\.\)\) \| #0", "the key was inserted on the line above when it was missing", None),
     # ---------------------------------------------------------------- loader.rs
     (r"loader::decode_raw_bytes \| (BoundsCheck|Overflow:Mul|Overflow:Add) \| .*Mul 4.*", "i < len/4 inside `if len % 4 == 0 && len > 3`: i*4+3 <= len-1 (congruence argument, not expressible as a difference bound); len <= isize::MAX so i*4 cannot overflow", None),
     (r"loader::decode_raw_bytes \| (BoundsCheck|Overflow:Mul|Overflow:Add) \| .*Mul 2.*", "i < len/2 inside `if len % 2 == 0 && len > 1`: i*2+1 <= len-1", None),
-    (r"loader::load \| Slice:str \| loader::decode_raw_bytes\(\.\.\)\[RangeFrom<usize>\] \| #0", "guarded by starts_with('\\u{feff}'): the BOM is exactly 3 bytes of UTF-8, so byte 3 is a char boundary and len > 2", None),
+    (r"loader::load \| Slice:str \| loader::decode_raw_bytes\(\.\.\)\[3\.\.\] \| #0", "guarded by starts_with('\\u{feff}'): the BOM is exactly 3 bytes of UTF-8, so byte 3 is a char boundary and len > 2", None),
     # ---------------------------------------------------------------- parser.rs
-    (r"parser::ParserState::<'a>::get_(double|float) \| Slice:str \| parser::ParserState::get_token_text\(\.\.\)\[RangeFrom<usize>\] \| #0", "guarded by starts_with(\"0x\"/\"0X\"): two ASCII bytes", None),
-    (r"parser::ParserState::<'a>::get_integer \| Slice:str \| parser::ParserState::get_token_text\(\.\.\)\[RangeFrom<usize>\] \| #0", "guarded by len > 2 && starts_with(\"0x\"/\"0X\")", None),
+    (r"parser::ParserState::<'a>::get_(double|float) \| Slice:str \| parser::ParserState::get_token_text\(\.\.\)\[2\.\.\] \| #0", "guarded by starts_with(\"0x\"/\"0X\"): two ASCII bytes", None),
+    (r"parser::ParserState::<'a>::get_integer \| Slice:str \| parser::ParserState::get_token_text\(\.\.\)\[2\.\.\] \| #0", "guarded by len > 2 && starts_with(\"0x\"/\"0X\")", None),
     (r"parser::ParserState::<'a>::get_identifier \| BoundsCheck \| len=len\(parser::ParserState::get_token_text\(\.\.\)\) index=0 \| #0", "Identifier tokens are never empty: every branch of tokenize_core that pushes one has consumed at least its first character", {"dominating_calls": ["parser::ParserState::<'a>::expect_token"]}),
-    (r"parser::ParserState::<'a>::get_string \| Slice:str \| local:&str\[Range<usize>\] \| #0", "String tokens produced by tokenize_core span an opening and a closing ASCII quote (find_string_end fails otherwise), so len >= 2 when the text starts with a quote", {"dominating_calls": ["parser::ParserState::<'a>::expect_token"]}),
+    (r"parser::ParserState::<'a>::get_string \| Slice:str \| local:&str\[1\.\.\(len\(local:&str\) Sub 1\)\] \| #0", "String tokens produced by tokenize_core span an opening and a closing ASCII quote (find_string_end fails otherwise), so len >= 2 when the text starts with a quote", {"dominating_calls": ["parser::ParserState::<'a>::expect_token"]}),
     (r"parser::ParserState::<'a>::get_line_offset \| Overflow:Sub \| arg1\.token_cursor\.tokens\[\]\.line Sub arg1\.token_cursor\.tokens\[\]\.line \(u32\) \| #0", "only evaluated when both tokens come from the same file id; within one file tokenize_core assigns non-decreasing line numbers", None),
     (r"parser::ParserState::<'a>::get_line_offset \| BoundsCheck \| len=len\(arg1\.token_cursor\.tokens\) index=0 \| #0", "get_line_offset is only called after a token was consumed, so the token list is not empty", None),
     (r"parser::ParserState::<'a>::get_line_offset \| Overflow:Sub \| arg1\.token_cursor\.tokens\[\]\.line Sub 1 \(u32\) \| #0", "line numbers start at 1 in tokenize_core", None),
-    (r"parser::ParserState::<'a>::get_token_text \| Slice:str \| arg1\.filedata\[\]\[Range<usize>\] \| #0", "token positions are produced by tokenize_core on the same text: startpos <= endpos <= len, every token starts and ends next to an ASCII byte", None),
+    (r"parser::ParserState::<'a>::get_token_text \| Slice:str \| arg1\.filedata\[\]\[arg2\.startpos\.\.arg2\.endpos\] \| #0", "token positions are produced by tokenize_core on the same text: startpos <= endpos <= len, every token starts and ends next to an ASCII byte", None),
     (r"parser::ParserState::<'a>::handle_unknown_taggedstruct_tag \| BoundsCheck \| len=len\(arg1\.token_cursor\.tokens\) index=parser::ParserState::get_tokenpos\(\.\.\) \| #0",
      "the get_token()? + undo_get_token() pair directly before proves that a token exists at the cursor position", {"dominating_calls": ["parser::ParserState::<'a>::get_token"]}),
     (r"parser::ParserState::<'a>::handle_unknown_taggedstruct_tag \| Overflow:(Add|Sub) \| local:i32 (Add|Sub) 1 \(i32\) \| #0", "balance changes by one per token: stated assumption < 2^31 tokens", None),
@@ -59,19 +59,19 @@ REASONS = [
     # ---------------------------------------------------------------- tokenizer.rs
     (r"tokenizer::count_newlines \| Std:sum \| .*", "sums at most len(text) ones into a u32: stated assumption inputs < 4 GiB", None),
     (r"tokenizer::find_string_end \| Overflow:Sub \| arg2 Sub 1 \(usize\) \| #0", "if the loop ran bytepos >= 1; if it did not run and bytepos == datalen the function has returned Err (prev_quote is false initially); if bytepos > datalen then bytepos >= 1", None),
-    (r"tokenizer::handle_a2ml \| Slice:str \| arg1\[Range<usize>\] \| #0", "positions of the Identifier token pushed by the caller immediately before the call (ASCII identifier characters)", None),
+    (r"tokenizer::handle_a2ml \| Slice:str \| arg1\[.*index\(\.\.\)\.startpos\.\..*index\(\.\.\)\.endpos\] \| #0", "positions of the Identifier token pushed by the caller immediately before the call (ASCII identifier characters)", None),
     (r"tokenizer::handle_a2ml \| Overflow:Sub \| arg2 Sub [12] \(usize\) \| #0", "bytepos >= startpos >= 4: the bytes before startpos are the identifier \"A2ML\", which is not whitespace, so the backwards trim stops there", None),
     (r"tokenizer::tokenize \| Overflow:Add \| arg2 Add 1 \(usize\) \| #0", "file ids count files: far below usize::MAX", None),
-    (r"tokenizer::tokenize \| Slice:seq \| .*\[Range<usize>\] \| #0", "include_directives holds indices into input_tokens and is non-empty in this branch", None),
+    (r"tokenizer::tokenize \| Slice:seq \| .*\[0\.\..*index\(\.\.\)\] \| #0", "include_directives holds indices into input_tokens and is non-empty in this branch", None),
     (r"tokenizer::tokenize \| Overflow:Add \| <std::vec::Vec as std::ops::Index>::index\(\.\.\) Add 1 \(usize\) \| #0", "an index into input_tokens, < len <= isize::MAX", None),
-    (r"tokenizer::tokenize \| Slice:seq \| .*\[Range<usize>\] \| #1", "consecutive entries of include_directives are strictly increasing token indices and the last one is input_tokens.len()", None),
+    (r"tokenizer::tokenize \| Slice:seq \| .*\[\(.*index\(\.\.\) Add 1\)\.\..*index\(\.\.\)\] \| #0", "consecutive entries of include_directives are strictly increasing token indices and the last one is input_tokens.len()", None),
     (r"tokenizer::tokenize \| BoundsCheck \| len=len\(arg3\) index=\(local:usize Sub 1\) \| #0", "endpos of a String/Identifier token: 1 <= endpos <= len", None),
     (r"tokenizer::tokenize \| BoundsCheck \| len=len\(arg3\) index=local:usize \| #0", "startpos of a token: < len", None),
     (r"tokenizer::tokenize \| Overflow:Sub \| local:usize Sub 1 \(usize\) \| #0", "token end positions are >= 1 (tokens are not empty)", None),
-    (r"tokenizer::tokenize \| Slice:str \| arg3\[Range<usize>\] \| #0", "token boundaries, moved inwards by one ASCII quote on each side only when both quotes are present", None),
+    (r"tokenizer::tokenize \| Slice:str \| arg3\[local:usize\.\.local:usize\] \| #0", "token boundaries, moved inwards by one ASCII quote on each side only when both quotes are present", None),
     (r"tokenizer::tokenize \| Overflow:Add \| local:usize Add len\(.*filenames\) \(usize\) \| #0", "counts files", None),
     (r"tokenizer::tokenize \| Index:seq \| .* \| #0", "include_directives[idx-1] is an index of an Include token in input_tokens", None),
-    (r"tokenizer::tokenize_core \| Slice:seq \| arg3\[Range<usize>\] \| #[13]", "bytepos was returned by find_block_comment_end / find_string_end for the same buffer: startpos < bytepos <= datalen", None),
+    (r"tokenizer::tokenize_core \| Slice:seq \| arg3\[local:usize\.\.local:usize\] \| #[01]", "bytepos was returned by find_block_comment_end / find_string_end for the same buffer: startpos < bytepos <= datalen", None),
     (r"tokenizer::tokenize_core \| Unwrap \| unwrap\(core::slice::last\(\.\.\)\) \| #0", "guarded by !tokens.is_empty() in the same && chain", None),
     # ---------------------------------------------------------------- checker.rs
     (r"checker::check_axis_descr_refs \| Unwrap \| unwrap\(core::str::strip_prefix\(\.\.\)\) \| #[01]", "guarded by starts_with(\"THIS.\") on the same string in the enclosing if", None),
